@@ -869,7 +869,7 @@ FACETS = [
           quick=(1, 150), thorough=(4, 1000)),
     Facet("oem", lambda s, t: case_of(G.oem_spec(), "oem"), check, setup=_setup,
           rule="every case (1-2 ephemerides, 1-12 points, 0..N covariances)",
-          quick=(8, 80), thorough=(16, 1000)),
+          quick=(8, 60), thorough=(16, 1000)),
     Facet("omm", lambda s, t: case_of(G.omm_spec(), "omm"), check, setup=_setup,
           rule="every case (orbit from a generated TLE or built like the reader builds it)",
           quick=(4, 150), thorough=(8, 2000)),
